@@ -284,6 +284,13 @@ def real_expr(rec, rx: RCtx):
 
 
 def real_pred(rec, rx: RCtx):
+    if rec.get("wrap") == "case":
+        # the predicate as a boolean case expression (not a comparison at the top of `on`)
+        return pdt.when(_real_pred(rec, rx)).then(True).otherwise(False)
+    return _real_pred(rec, rx)
+
+
+def _real_pred(rec, rx: RCtx):
     p = rec["p"]
     if p == "true":
         return pdt.lit(True)
@@ -297,6 +304,10 @@ def real_pred(rec, rx: RCtx):
     if p == "cmp":
         op = rec["op"]
         thr = rec["thr"]
+        if op == "==self":
+            return a == a  # an equality that reads one table only
+        if op == "==" and rec.get("lf"):
+            return pdt.lit(thr) == a  # literal written first
         return {">=": a >= thr, "<": a < thr, "==": a == thr, "!=": a != thr}[op]
     if p == "isnull":
         r = a.is_null()
@@ -317,6 +328,12 @@ def real_pred(rec, rx: RCtx):
 def py_pred(rec, val) -> bool | None:
     """Evaluate a predicate in Python on decoded cell values.  val(refarg) -> value | None.
     Three-valued: None = unknown (null operand)."""
+    if rec.get("wrap") == "case":
+        return _py_pred(rec, val) is True
+    return _py_pred(rec, val)
+
+
+def _py_pred(rec, val) -> bool | None:
     p = rec["p"]
     if p == "true":
         return True
@@ -337,6 +354,8 @@ def py_pred(rec, val) -> bool | None:
         if a is None:
             return None
         thr = rec["thr"]
+        if rec["op"] == "==self":
+            return True
         return {">=": a >= thr, "<": a < thr, "==": a == thr, "!=": a != thr}[rec["op"]]
     b = val(rec["b"])
     if a is None or b is None:
